@@ -657,6 +657,11 @@ func (p *Parser) evaluateImports(ctx context) ([]Statement, error) {
 			if nextToken.Type() != lexer.NEWLINE {
 				return nil, p.expectedNewlineError(nextToken)
 			}
+
+			// Blank and comment-only lines may stand between the opening bracket and the first import.
+			for p.peek().Type() == lexer.NEWLINE {
+				p.eat()
+			}
 		}
 
 		for {
@@ -727,6 +732,10 @@ func (p *Parser) evaluateImports(ctx context) ([]Statement, error) {
 				}
 			}
 
+			// Blank and comment-only lines may stand between the imports of a group.
+			for multiple && p.peek().Type() == lexer.NEWLINE {
+				p.eat()
+			}
 			nextToken = p.peek()
 			nextTokenType := nextToken.Type()
 
